@@ -24,6 +24,22 @@ def runChunks : Nat → Nat → Nat → Reader → List String → List String
     | .panic => acc.reverse ++ ["panic"]
     | .fuel => acc.reverse ++ ["fuel"]
 
+/-- the first value of a stream as (payload length, kind) and how the stream ended behind it -/
+def inextAllShow (chunks : List Bytes) : Option (Nat × Char) × String :=
+  let r : Reader := ⟨chunks⟩
+  let f := r.rest.length + 1
+  let endOf : IRes → String
+    | .ok _ _ => "limit" | .eof => "eof" | .err => "err" | .panic => "panic" | .fuel => "fuel"
+  match inext f r with
+  | .ok m r' =>
+    let d : Nat × Char := match m with
+      | .bulk (some p) => (p.length, 'b')
+      | .bulk none => (0, 'n')
+      | .line _ p => (p.length, 'l')
+      | _ => (0, 'a')
+    (some d, endOf (inext f r'))
+  | e => (none, endOf e)
+
 def streamOutcome (chunks : List Bytes) (maxValues : Nat) : String :=
   let r : Reader := ⟨chunks⟩
   let n := r.rest.length
@@ -295,8 +311,16 @@ def handleLine (toks : List String) : String :=
     let pat := unhex ph
     packBits (ks.map fun k => globMatch pat (unhex k))
   | "chunks" :: ts => streamOutcome ((afterBar ts).map unhex) 1048576
+  -- the last bytes delivered together with io.EOF: the same stream, the same values (the end of the stream is the end
+  -- of the stream however it is announced)
+  | "chunkse" :: ts => streamOutcome ((afterBar ts).map unhex) 1048576
   | "hostile" :: hs => streamOutcome (hs.map unhex) 1048576
   -- `deep <depth> <tail>`: `*1\r\n` nested <depth> times, then <tail> (compact form of a hostile stream near the 1 MiB bound)
+  | ["bulk", decl, present, t] =>
+    let stream := b!"$" ++ (toString decl.toNat!).toUTF8.toList ++ b!"\r\n" ++ List.replicate present.toNat! 97 ++ unhex t
+    match inextAllShow [stream] with
+    | (some (len, kind), e) => s!"v len={len} kind={kind} ; {e}"
+    | (none, e) => e
   | ["deep", d, t] => streamOutcome [(List.replicate d.toNat! b!"*1\r\n").flatten ++ unhex t] 1048576
   | ["ctor", "int", n] =>
     match n.toInt? with
